@@ -48,6 +48,9 @@ def describedSchemaDoc : SchemaDoc :=
   { docOf [mkDef .object "Q" [field "f" "Q"]] with
     schema := [{ desc := str "d", dirs := [], opTypes := [{ op := str "query", type := str "Q", pos := p1 }], pos := p1 }] }
 
+/-- `type Query { f: Query }` -/
+def plainQueryDoc : SchemaDoc := docOf [mkDef .object "Query" [field "f" "Query"]]
+
 /-- `scalar Query` -/
 def scalarQueryDoc : SchemaDoc := docOf [mkDef .scalar "Query" []]
 
